@@ -707,6 +707,9 @@ func c07Monitor(c RCaseR, o rObs) (string, string) {
 // c13Monitor: no panic, allocation bounded by the input size, ok => structurally valid bytes.
 func c13Monitor(c RCaseR, o rObs) string {
 	if o.Panic != "" {
+		if strings.HasPrefix(o.Panic, "ToCommandLine answers differently") {
+			return "C13: " + o.Panic + " (text from beyond the slice it was given, or an error that depends on it)"
+		}
 		return "C13: panic: " + o.Panic
 	}
 	size := len(c.Hex)/2 + len(c.Spec)
